@@ -127,16 +127,15 @@ class IPv6FlowSpec(NLRI):
         """
         prefix_value = prefix.get('prefix')
         ip, masklen = prefix_value.split('/')
-        ip_hex = netaddr.IPAddress(ip).packed
         offset = prefix.get('offset')
         masklen = int(masklen)
 
-        # lenght
-        ip_hex = ip_hex[: math.ceil(masklen / 8)]
-
-        # offset
-        ip_hex = ip_hex[math.floor(offset / 8):]
-        # ip_hex = ip_hex[]
+        # RFC 8956 section 3.1: the pattern holds the (masklen - offset) bits that follow
+        # the first `offset` bits of the prefix, padded to an octet boundary
+        pattern_bits = masklen - offset
+        pattern = (int(netaddr.IPAddress(ip)) >> (128 - masklen)) & ((1 << pattern_bits) - 1)
+        pattern_len = int(math.ceil(pattern_bits / 8))
+        ip_hex = (pattern << (pattern_len * 8 - pattern_bits)).to_bytes(pattern_len, 'big')
 
         return struct.pack('!B', masklen) + struct.pack('!B', offset) + ip_hex
 
